@@ -167,6 +167,10 @@ def get_ast(func):
         module = ast.parse(source)
     except SyntaxError:
         return None
+    if not module.body:
+        # eg. the file changed since it was imported and what is at the
+        # function's lines now is blank or comments
+        return None
     func_ast = module.body[0]
     if not isinstance(func_ast, (ast.FunctionDef, ast.AsyncFunctionDef)):
         return None
